@@ -32,7 +32,7 @@ def main():
         res = json.load(open(a.out))
     for d in sorted(glob.glob(os.path.join(V, "seeded", "*"))):
         name = os.path.basename(d)
-        if a.only and not name.startswith(a.only):
+        if a.only and not any(name == o or (len(o) == 3 and name.startswith(o)) for o in a.only.split(",")):
             continue
         meta = json.load(open(os.path.join(d, "meta.json")))
         caught = [c for c, v in meta.get("checks", {}).items() if v.get("verdict") == "caught"]
@@ -48,6 +48,17 @@ def main():
             r = sh(["git", "-C", wt, "apply", os.path.join(d, "patch.diff")])
             if r.returncode:
                 r = sh(["git", "-C", wt, "apply", "--3way", os.path.join(d, "patch.diff")])
+            fuzzed = False
+            if r.returncode:
+                # last resort: GNU patch with fuzz 2 (fuzz 3 once placed a hunk inside a docstring; context lines changed by a later fix: commit); the result must still compile
+                sh(["git", "-C", wt, "reset", "-q", "--hard"])
+                sh(["git", "-C", wt, "clean", "-fdq"])
+                r2 = sh(["patch", "-p1", "-F2", "--no-backup-if-mismatch", "-i", os.path.join(d, "patch.diff")], cwd=wt)
+                rej = [f for f in sh(["git", "-C", wt, "status", "--short"]).stdout.split() if f.endswith(".rej") or f.endswith(".orig")]
+                comp = sh(["/venv/bin/python", "-m", "compileall", "-q", "persim"], cwd=wt)
+                if r2.returncode == 0 and not rej and comp.returncode == 0:
+                    r = r2
+                    fuzzed = True
             if r.returncode:
                 res[name] = {"status": "stale patch", "detail": r.stderr.strip()[:200]}
             else:
@@ -61,6 +72,8 @@ def main():
                         out["status"] = "caught"
                         out["by"] = c
                         break
+                if fuzzed:
+                    out["applied_with_fuzz"] = True
                 res[name] = out
         finally:
             sh(["git", "-C", "/repo", "worktree", "remove", "--force", wt])
